@@ -357,7 +357,7 @@ open MythVerif.Wsq (Elem Pid Holder retOpt)
 /-! ## x86-TSO machine: bounded exhaustive search with the fence positions as a parameter -/
 
 inductive Cmd where
-  | push (e : Elem) | pop | take | put (e : Elem) | pass (e : Elem)
+  | push (e : Elem) | pop | take | put (e : Elem) | pass (e : Elem) | peek
   deriving Repr
 
 structure Cfg where
@@ -387,12 +387,13 @@ def tpcKey : TPc → List Int
   | .tk2 b => [6, b] | .tk3 b x => [7, b, x] | .tk4 r => 8 :: optKey r | .tk5 b => [9, b] | .tk6 => [10]
   | .tpl e => [11, e] | .tp1 e => [12, e] | .tp1b e => [13, e] | .tp2 e b => [14, e, b] | .tp3 e => [15, e]
   | .tp4 ok => [16, if ok then 1 else 0]
+  | .kq0 => [17] | .kq1 t => [18, t] | .pk1 => [19] | .pk2 b => [20, b] | .pk3 b => [21, b]
 
 def lockKey : Holder → Int
   | .free => 0 | .owner => 1 | .thief p => 2 + p
 
 def cmdKey : Cmd → Int
-  | .push e => 100 + 3 * e | .pop => 1 | .take => 2 | .put e => 101 + 3 * e | .pass e => 102 + 3 * e
+  | .push e => 100 + 3 * e | .pop => 1 | .take => 2 | .put e => 101 + 3 * e | .pass e => 102 + 3 * e | .peek => 3
 
 /-- canonical key of the concrete part of a configuration (slots `0..size-1`, `k` participants) -/
 def Cfg.key (c : Cfg) : List Int :=
@@ -408,7 +409,7 @@ def Cfg.key (c : Cfg) : List Int :=
 
 def showLbl : Lbl → String
   | .oPush e => s!"owner:call-push({e})" | .oPop => "owner:call-pop" | .oPut e => s!"owner:call-put({e})" | .o => "owner:step" | .flushO => "owner:FLUSH"
-  | .tTake p => s!"thief{p}:call-take" | .tPass p e => s!"thief{p}:call-trypass({e})" | .t p => s!"thief{p}:step" | .flushT p => s!"thief{p}:FLUSH"
+  | .tTake p => s!"thief{p}:call-take" | .tPass p e => s!"thief{p}:call-trypass({e})" | .tPeek p => s!"thief{p}:call-peek" | .t p => s!"thief{p}:step" | .flushT p => s!"thief{p}:FLUSH"
 
 /-- successors: (label, configuration) -/
 def Cfg.succ (c : Cfg) : List (Lbl × Cfg) :=
@@ -430,6 +431,8 @@ def Cfg.succ (c : Cfg) : List (Lbl × Cfg) :=
         (match c.tscr[p]? with
          | some (.take :: rest) =>
            (match step s (.tTake p) with | some s' => [(.tTake p, { c with s := s', tscr := c.tscr.set p rest })] | none => [])
+         | some (.peek :: rest) =>
+           (match step s (.tPeek p) with | some s' => [(.tPeek p, { c with s := s', tscr := c.tscr.set p rest })] | none => [])
          | some (.pass e :: rest) =>
            (match step s (.tPass p e) with | some s' => [(.tPass p e, { c with s := s', tscr := c.tscr.set p rest })] | none => [])
          | _ => [])
@@ -484,6 +487,7 @@ def parseCmds (w : String) : List Cmd :=
   (w.splitOn ",").filterMap fun x =>
     if x == "pop" then some Cmd.pop
     else if x == "take" then some Cmd.take
+    else if x == "peek" then some Cmd.peek
     else if x.startsWith "push" then (x.drop 4).toNat?.map Cmd.push
     else if x.startsWith "put" then (x.drop 3).toNat?.map Cmd.put
     else if x.startsWith "pass" then (x.drop 4).toNat?.map Cmd.pass
@@ -496,7 +500,7 @@ def parseCfg (w : String) : FenceCfg :=
 
 /-- `drv_wsq tso <size> <fences> <limit> <ownerscript> <thiefscript>*`
     e.g. `tso 4 1011 200000 push1,pop take`; owner commands `pushN`, `pop`, `putN`, participant
-    commands `take`, `passN` (one `myth_queue_trypass`; a failed trylock returns without inserting) -/
+    commands `take`, `peek`, `passN` (one `myth_queue_trypass`; a failed trylock returns without inserting) -/
 def runCli (args : List String) : IO UInt32 := do
   match args with
   | size :: fences :: limit :: oscr :: tscrs =>
